@@ -90,7 +90,10 @@ Fixpoint pairs_s (rk rv : bool) (gk gv : val -> fstate -> sres) (l : list (val *
 
 (* the encoder closures, on the state object [s] they are given; result: bytes appended and the
    state afterwards.  (An interface holding a nil error / an interface is not a Go value: [Err EType]
-   as in [enc_val].) *)
+   as in [enc_val].)  Imprecisions of the VARIANTS with a reset missing (unreachable under [all_resets]):
+   a nil error under a leaked flag is [Err EType] here (the code writes ff ff); [ty_hdr] uses the reg
+   cache, whereas the field / item encoders a registered type captured at registration time carry the
+   uncached descriptor of an unnamed composite type (they never write it in the real code). *)
 Fixpoint enc_s (d : resets) (f : nat) (o : opts) (t : ty) (v : val) (s : fstate) {struct f} : sres :=
   match f with
   | O => Err EFuel
